@@ -43,6 +43,11 @@ def _kernel_linear(x1, x2, c, **kw):
     return c[..., None, None] * (x1 @ x2.mT)
 
 
+def _kernel_metric(x1, x2, c, metric, **kw):
+    # metric: a LinearOperator (or, after densification, a tensor) d x d
+    return c[..., None, None] * (x1 @ (metric @ x2.mT))
+
+
 def _kernel_quad(x1, x2, c, **kw):
     return c[..., None, None] * (x1 @ x2.mT + 1.0) ** 2
 
@@ -160,6 +165,9 @@ def build(term, dtype, leaves=None, requires_grad=False, path=(), leafmap=None):
         return O.KernelLinearOperator(
             x1, x2, covar_func=_kernel_linear if ks[0] == 0 else _kernel_quad, c=c, num_nonbatch_dimensions={"c": 0}
         )
+    if cls == "KernelM":
+        x1, x2, c = F(0), F(1), F(2)
+        return O.KernelLinearOperator(x1, x2, covar_func=_kernel_metric, c=c, metric=S(0), num_nonbatch_dimensions={"c": 0})
     raise KeyError("no binding for spec class %r" % cls)
 
 
